@@ -192,6 +192,16 @@ def run_case(ctx, pydsdl, lay, workdir):
         ("abs-target/[name-root,abs-other]", ws, [fpath], [lay["root"], other_dir], True),
         ("abs-target/[abs-other,abs-root]", ws, [fpath], [other_dir, rootdir], True),
     ]
+    # one root namespace contributed to from two file trees (two root directories of the same name), the target given relative to
+    # the parent of its root: it is found in the tree where the file actually is, whichever tree is listed first
+    twin_root = ws / "twintree" / lay["root"]
+    twin_root.mkdir(parents=True, exist_ok=True)
+    (twin_root / "TwinTreeOnly.1.0.dsdl").write_text("@sealed\n")
+    designs += [
+        ("two-trees/rootparent-rel/[abs-twin,abs-root]", ws, [rel_to_root_parent], [twin_root, rootdir], True),
+        ("two-trees/rootparent-rel/[abs-root,abs-twin]", ws, [rel_to_root_parent], [rootdir, twin_root], True),
+        ("two-trees/abs-target/[abs-twin,abs-root]", ws, [fpath], [twin_root, rootdir], True),
+    ]
     # designations off the documented forms that may fail, but only with an InvalidDefinitionError, and must give the identity
     # encoded by the path when they succeed: the target reached through '..' across a sibling root (a root that is only a
     # lexical prefix of the target is not its root), and roots spelled '.' / '../<root>' from inside the tree
